@@ -1,5 +1,5 @@
 (* C17 — decomposition and raw-representation round trips. *)
-From UL Require Import Bytes Subtags LangId Ext Grammar LangIdSpec LocaleInv PackProofs LangIdProofs LangIdAlgebra RoundTrip.
+From UL Require Import Bytes Subtags LangId Ext Grammar LangIdSpec LocaleInv PackProofs LangIdProofs LangIdAlgebra RoundTrip StringLevel.
 From Coq Require Import String.
 
 Theorem C17_parts_langid : forall x, li_inv x = true ->
@@ -41,6 +41,25 @@ Proof.
   destruct (li_into_parts (loc_id x)) as [[[l s] r] vs]. rewrite (extmap_roundtrip _ He).
   unfold loc_from_parts. rewrite P. destruct x; reflexivity.
 Qed.
+
+(* from_parts equals PARSING THE JOINED STRING: for canonical subtags (what the subtag parsers produce,
+   C05_*_reach) given in any order and with duplicates, with '-' or any mixture of '-' and '_' *)
+Theorem C17_from_parts_is_parse : forall l sc rg vs,
+  canon_lang l = true -> opt_all canon_script sc = true -> opt_all canon_region rg = true -> forallb canon_variant vs = true ->
+  langid_from_bytes (join (language_text l :: opt_tok sc ++ opt_tok rg ++ vs)) = Ok (li_from_parts l sc rg vs).
+Proof. exact from_parts_is_parse. Qed.
+Theorem C17_from_parts_is_parse_any_sep : forall l sc rg vs seps,
+  canon_lang l = true -> opt_all canon_script sc = true -> opt_all canon_region rg = true -> forallb canon_variant vs = true ->
+  forallb is_sep seps = true ->
+  langid_from_bytes (weave (language_text l :: opt_tok sc ++ opt_tok rg ++ vs) seps) = Ok (li_from_parts l sc rg vs).
+Proof. exact from_parts_is_parse_any_sep. Qed.
+Example C17_from_parts_ex :
+  li_from_parts (Some (bs "ca")) None (Some (bs "ES")) [bs "valencia"; bs "1996"; bs "valencia"]%string
+  = mkLangId (Some (bs "ca")) None (Some (bs "ES")) (Some [bs "1996"; bs "valencia"])%string
+  /\ forallb canon_variant [bs "valencia"; bs "1996"; bs "valencia"]%string = true.
+Proof. split; vm_compute; reflexivity. Qed.
+Print Assumptions C17_from_parts_is_parse.
+Print Assumptions C17_from_parts_is_parse_any_sep.
 
 Print Assumptions C17_parts_locale.
 Print Assumptions C17_parts_langid.
